@@ -4,7 +4,7 @@ fault planting, ST printer and model encoder.  Shared by C02, C03, C06.
 decl forms (python tuples):
   ('E', name, [values], dflt|None)          enumeration type
   ('A', name, base)                         alias of an enumeration type
-  ('S', name, [(ename, ty)])                structure type
+  ('S', name, [(ename, ty[, init])])        structure type (init: an enumeration value for an element of an enumeration type)
   ('R', name, lo, hi)                       subrange type
   ('F'|'U'|'P', name, [vars], [stmts])      function block / function / program
   ('C', name, [globals], [tasks], [(inst, task|None, progtype)])
@@ -99,7 +99,7 @@ def print_decl(d, rng=None):
     if k == 'A':
         return f'TYPE\n  {nm(d[1])} : {nm(d[2])};\nEND_TYPE\n'
     if k == 'S':
-        es = ''.join(f'    {nm(e)} : {ty_st(t)};\n' for e, t in d[2])
+        es = ''.join(f"    {nm(e[0])} : {ty_st(e[1])}{' := ' + nm(e[2]) if len(e) > 2 and e[2] is not None else ''};\n" for e in d[2])
         return f'TYPE\n  {nm(d[1])} : STRUCT\n{es}  END_STRUCT;\nEND_TYPE\n'
     if k == 'R':
         return f'TYPE\n  {nm(d[1])} : INT ({d[2]}..{d[3]});\nEND_TYPE\n'
@@ -141,7 +141,7 @@ def enc_decl(d):
     k = d[0]
     if k == 'E': return f"E:{d[1]}:{','.join(str(v) for v in d[2])}:{'-' if d[3] is None else d[3]}"
     if k == 'A': return f'A:{d[1]}:{d[2]}'
-    if k == 'S': return f"S:{d[1]}:{','.join(f'{e}.{ty_enc(t)}' for e, t in d[2])}"
+    if k == 'S': return f"S:{d[1]}:{','.join(f'{e[0]}.{ty_enc(e[1])}' + (f'.{e[2]}' if len(e) > 2 and e[2] is not None else '') for e in d[2])}"
     if k == 'R': return f'R:{d[1]}:{enc_int(d[2])}:{enc_int(d[3])}'
     if k in 'FUP': return f"{k}:{d[1]}:{','.join(enc_var(v) for v in d[2])}:{','.join(enc_stmt(s) for s in d[3])}"
     if k == 'C':
@@ -191,7 +191,11 @@ def gen_valid(rng, size=None):
         es = []
         for _ in range(rng.randint(1, 3)):
             r = rng.random()
-            ty = 'i' if r < 0.4 else 'b' if r < 0.6 else ('n', rng.choice(enums)[0]) if r < 0.8 or not structs else ('n', rng.choice(structs))
+            if r < 0.2:
+                # an element of an enumeration type with an initial value
+                et, vals = rng.choice(enums)
+                es.append((ns.new(), ('n', et), rng.choice(vals))); continue
+            ty = 'i' if r < 0.45 else 'b' if r < 0.6 else ('n', rng.choice(enums)[0]) if r < 0.8 or not structs else ('n', rng.choice(structs))
             es.append((ns.new(), ty))
         decls.append(('S', t, es)); structs.append(t)
     for _ in range(rng.randint(0, size)):
@@ -324,6 +328,12 @@ def plant_all(decls, ns, rng):
         if k == 'S':
             es = list(d[2]); es.append((es[0][0], 'i'))
             out.append(('struct-dup-element', 'P0003', mut(i, ('S', d[1], es))))
+            for j, e in enumerate(d[2]):
+                if len(e) > 2 and e[2] is not None:
+                    es = list(d[2]); es[j] = (e[0], e[1], 7998)
+                    out.append(('struct-elem-enum-value-undefined', 'P0014', mut(i, ('S', d[1], es))))
+                    es = list(d[2]); es[j] = (e[0], ('n', 7997), e[2])
+                    out.append(('struct-elem-enum-type-undeclared', 'P0012', mut(i, ('S', d[1], es))))
         if k == 'R':
             out.append(('subrange-min-gt-max', 'P0004', mut(i, ('R', d[1], d[3], d[2]))))
             out.append(('subrange-min-eq-max', 'P0004', mut(i, ('R', d[1], d[2], d[2]))))
